@@ -22,6 +22,7 @@ except ImportError:      # replays run under the repository's interpreter, witho
 
 from pyvc.api import (Module, Interface, Method, Iface, Inst, Int, Nat, Pos, Bool, Str, Opt, OneOf, Const, Union,
                       ListOf, MListOf, IterOf, FixedList, Any_, Custom)
+from pyvc.values import SStr
 from contracts.common import (implies, iff, forall_range, exists_range, prefix_join, join_of, peek, all_chars,
                               recursive_str)
 from contracts import text_spec
@@ -175,19 +176,19 @@ M.loop(P_STRIP + ':_strip_trailing_space', 2, invariant=_inv_ts_inner,
 # a and b white space only, r empty or neither starting nor ending with white space) -- and the proof uses ONE lemma
 # about that function: the decomposition is unique.
 
-def _strip_unique_statement(a, r, b):
-    return implies(all_space(a) and all_space(b)
+def _strip_unique_statement(t, a, r, b):
+    return implies(t == a + r + b and all_space(a) and all_space(b)
                    and (r == '' or (not r[:1].isspace() and not r[len(r) - 1:].isspace())),
-                   (a + r + b).strip() == r)
+                   t.strip() == r)
 
 
-def strip_unique(a, r, b):
+def strip_unique(t, a, r, b):
     """TRUSTED LEMMA about the function t |-> t.strip() as the engine defines it (uniqueness of the decomposition:
     if t == a + r + b == a' + r' + b' with a, b, a', b' white space only and r, r' empty or neither starting nor
     ending with white space then r == r': were |a| < |a'|, the first character of r would be a character of a', hence
     white space; symmetrically at the end; if r is empty t is white space only and so is r').  Evaluated natively on
     every short text by the check `strip-models`."""
-    return _strip_unique_statement(a, r, b)
+    return _strip_unique_statement(t, a, r, b)
 
 
 def _m_strip_unique(interp, args, kwargs):
@@ -197,18 +198,41 @@ def _m_strip_unique(interp, args, kwargs):
 
 
 M.model(strip_unique, _m_strip_unique)
-_STRIP_SPACE_PROOF = False      # (see notes/C05.md, Extension T14: two conjuncts of the invariant of the main loop and the
+_STRIP_SPACE_PROOF = True      # (see notes/C05.md, Extension T14: two conjuncts of the invariant of the main loop and the
 #                                 final clause are not discharged within the solver budgets yet)
 
-def _lead(line):
-    """the white space at the beginning of a line"""
+def lead_space(line):
+    """the white space at the beginning of a line: line == lead_space(line) + line.lstrip()"""
     return line[:len(line) - len(line.lstrip())]
+
+
+def _m_lead_space(interp, args, kwargs):
+    """proof level: the piece `a` of the engine's model of lstrip (line == a + line.lstrip(), a white space only),
+    named as a function of the line (it is one: the prefix of that length), so that facts about it survive loop heads"""
+    from pyvc import charclass, strings
+    from pyvc.values import to_z3
+    (x,) = args
+    if isinstance(x, str):
+        return x[:len(x) - len(x.lstrip())]
+    t = to_z3(x)
+    sort = z3.StringSort()
+    lead = z3.Function('C05.lead_space', sort, sort)
+    lstrip = z3.Function('str.lstrip[space]', sort, sort)        # (the engine's function: pyvc.charclass.strip_space)
+    strings._strip(interp, x, None, True, False)
+    a = lead(t)
+    interp.st._add(t == z3.Concat(a, lstrip(t)))
+    v = charclass.apply(interp, charclass.class_of_upred(interp, 'isspace'), SStr(a))
+    interp.st._add(to_z3(v))
+    return SStr(a)
+
+
+M.model(lead_space, _m_lead_space)
 
 
 def _space_before(xs, f):
     """the text before the first character that is not white space: the lines before line f and the white space at
     the beginning of line f"""
-    return prefix_join(xs, f) + _lead(xs[f])
+    return prefix_join(xs, f) + lead_space(xs[f])
 
 
 def _inv_s(_i, _n, _i0, lines, yielded, non_empty_line, empty_lines_skipped):
@@ -217,23 +241,31 @@ def _inv_s(_i, _n, _i0, lines, yielded, non_empty_line, empty_lines_skipped):
     return 0 <= _i0 and _i0 <= k and k - _i0 == len(yielded) \
         and not all_space(non_empty_line) \
         and is_line(non_empty_line) and (k >= _n - 1 or non_empty_line.endswith(NL)) \
-        and ((len(yielded) == 0 and not non_empty_line[:1].isspace())
-             or (len(yielded) > 0 and not yielded[0][:1].isspace())) \
+        and is_line(non_empty_line.rstrip()) \
+        and not (join_of(yielded) + non_empty_line.rstrip())[:1].isspace() \
         and all_space(_space_before(xs, _i0)) \
         and all_space(join_of(empty_lines_skipped)) \
         and all_space(_space_at_end(non_empty_line) + join_of(empty_lines_skipped)) \
         and _space_before(xs, _i0) + join_of(yielded) + non_empty_line == prefix_join(xs, k + 1) \
         and prefix_join(xs, _i) == prefix_join(xs, k + 1) + join_of(empty_lines_skipped) \
-        and strip_unique(_space_before(xs, _i0), join_of(yielded) + non_empty_line.rstrip(),
+        and prefix_join(xs, _i) == _space_before(xs, _i0) + (join_of(yielded) + non_empty_line.rstrip()) \
+        + (_space_at_end(non_empty_line) + join_of(empty_lines_skipped)) \
+        and strip_unique(prefix_join(xs, _i), _space_before(xs, _i0), join_of(yielded) + non_empty_line.rstrip(),
                          _space_at_end(non_empty_line) + join_of(empty_lines_skipped)) \
         and forall_range(0, len(yielded), lambda j: is_line(yielded[j]) and yielded[j].endswith(NL)) \
         and forall_range(0, len(empty_lines_skipped), lambda j: empty_lines_skipped[j] == xs[_i - len(empty_lines_skipped) + j])
 
 
+def _inv_s_first(_i, lines):
+    # (the first conjunct makes the concatenation explicit: the class measure is instantiated at it)
+    return (_i == 0 or all_space(prefix_join(lines.xs, _i - 1) + lines.xs[_i - 1])) \
+        and all_space(prefix_join(lines.xs, _i))
+
+
 def _inv_s_inner(_i, _i1, _i0, lines, yielded, empty_lines_skipped):
     xs = lines.xs
     k = _i1 - len(empty_lines_skipped) + _i
-    return k - _i0 == len(yielded) and len(yielded) > 0 and not yielded[0][:1].isspace() \
+    return k - _i0 == len(yielded) and join_of(yielded) != '' and not join_of(yielded)[:1].isspace() \
         and _space_before(xs, _i0) + join_of(yielded) == prefix_join(xs, k) \
         and forall_range(0, len(yielded), lambda j: is_line(yielded[j]) and yielded[j].endswith(NL)) \
         and forall_range(0, len(empty_lines_skipped), lambda j: empty_lines_skipped[j] == xs[_i1 - len(empty_lines_skipped) + j])
@@ -254,7 +286,7 @@ if _STRIP_SPACE_PROOF:
                        and join_of(yielded) == old.strip(),
                },
                raises_only=())
-    M.loop(P_STRIP + ':_strip_space', 0, invariant=lambda _i, lines: all_space(prefix_join(lines.xs, _i)),
+    M.loop(P_STRIP + ':_strip_space', 0, invariant=_inv_s_first,
            modifies=dict(non_empty_line=Str))
     M.loop(P_STRIP + ':_strip_space', 1, invariant=_inv_s,
            modifies=dict(yielded='len', non_empty_line=Str, empty_lines_skipped=MListOf(Str),
@@ -340,7 +372,7 @@ def _strip_models(ctx):
         for j in range(len(t) + 1):
             for k in range(j, len(t) + 1):
                 n += 1
-                if not strip_unique(t[:j], t[j:k], t[k:]):
+                if not strip_unique(t, t[:j], t[j:k], t[k:]):
                     bad = (t[:j], t[j:k], t[k:])
     ctx.obligation('lemma strip_unique: a + r + b with a, b white space only and r empty or neither starting nor ending '
                    'with white space has (a + r + b).strip() == r', bad is None, 'enumeration',
